@@ -56,3 +56,8 @@ Definition reload_text (T : tables) (fuel : nat) (name_pre desc_pre : bytes) (te
       render_set T [] fuel name_pre desc_pre (mkBS rq (map lf_bf fs))
   | _ => BCrash
   end.
+
+(* FiltersSet.getfilter on a loaded set: the content, or what the `if false` wrapper holds *)
+Definition l_getfilter (f : lfilter) : option node :=
+  if lf_enabled f then Some (lf_content f)
+  else match node_children (lf_content f) with c :: _ => Some c | [] => None end.
